@@ -6,8 +6,8 @@ ROOT = '/verif'
 root = sys.argv[1]
 mode = sys.argv[2]
 only = sys.argv[3:]
-WT = '/tmp/wtm'
-res_path = f'{ROOT}/scratch/mutmatrix2_{os.path.basename(root.rstrip("/"))}_{mode.replace(",", "_")}.json'
+WT = os.environ.get('MM_WT', '/tmp/wtm')   # scratch worktree (use different ones for parallel streams)
+res_path = f'{ROOT}/scratch/mutmatrix2_{os.path.basename(root.rstrip("/"))}_{mode.replace(",", "_")}{os.environ.get("MM_TAG", "")}.json'
 out = json.load(open(res_path)) if os.path.exists(res_path) else {}
 ALL = ['C01','C02','C03','C04','C05','C06','C07','C08','C09','C10','C11','C12','C13','C14','C15','C16','C17','C18','C20']
 subprocess.run(f'git -C /repo worktree remove --force {WT}', shell=True, capture_output=True)
@@ -25,7 +25,7 @@ try:
             key = f'{d}:{pr}'
             if key in out and not only: continue
             t = time.time()
-            env = dict(os.environ, VERIF_REPO=WT, VERIF_EVIDENCE_DIR='/tmp/wtm_evidence')
+            env = dict(os.environ, VERIF_REPO=WT, VERIF_EVIDENCE_DIR=WT + '_evidence')
             r = subprocess.run(f'./vf check {pr} --tier quick', shell=True, cwd=ROOT, capture_output=True, text=True, env=env)
             what = [l.strip()[:220] for l in r.stdout.split('\n') if l.startswith('  what')]
             out[key] = {'exit': r.returncode, 'what': what[:6], 'wall': round(time.time()-t, 1), 'tail': r.stdout.strip().split('\n')[-1][:300]}
